@@ -491,13 +491,21 @@ def r04_8_has_return(ctx):
         if c.name == "SubroutineFnWrapper":
             ctx.ok("R04.8", construct, "delegates to the evaluated declaration (SubroutineDeclaration.has_return)", f.where)
             continue
+        if c.name in ("While", "For"):
+            continue  # decided below by evaluation
         raise AnalysisError(f"{c.fq}.has_return has a form the rule does not know: `{text[:80]}`")
     # the loops never claim to return (they can fall out when the condition is false)
     for name in ("While", "For"):
         c = ctx.model.find_class(name)
         f = ctx.model.resolve_method(c, "has_return")
-        rets = q.returns_of(f.node)
-        ctx.check(all(u(r.value) == "False" for r in rets), "R04.8", f"{name}.has_return", "a loop can exit through its condition: has_return must be False", f.where, fact={})
+        for body_returns in (True, False, None):
+            body = None if body_returns is None else Sym("body", attrs={"$isa": {"Expr"}}, methods={"has_return": lambda b=body_returns: b})
+            selfs = Sym(f"self:{name}", attrs={"doBlock": body, "cond": Sym("cond", methods={"has_return": lambda: False}), "start": Sym("start", methods={"has_return": lambda: False}), "step": Sym("step", methods={"has_return": lambda: False})})
+            try:
+                val, _ = run_function(f.node, {"self": selfs}, lambda e, me: (_ for _ in ()).throw(Unknown()), f.fq, permissive=True)
+            except Raised:
+                continue  # a loop without a body refuses to answer
+            ctx.check(val is False or (isinstance(val, bool) and not val), "R04.8", f"{name}.has_return[body {'missing' if body_returns is None else 'returns' if body_returns else 'falls through'}]", f"{name}.has_return() is {val!r}: a loop can run zero times and fall out through its condition, so it never guarantees a return (the routine would lose its closing return)", f.where, fact={"value": repr(val)})
     ctx.require_min("R04.8", 60)
 
 
